@@ -60,6 +60,9 @@ def instances(tier, rng):
                 always.append({"ign": off})
                 always.append({"ign": off, "opt": rng.choice([{"use_min_gen_set_lowerbound": True}, {"optimize_with_guessed_weights": True},
                                                               {"optimize_with_safe_sequences": False}])})
+        always.append({"mode": "node", "opt": rng.choice([{"use_min_gen_set_lowerbound": True},
+                                                          {"optimize_with_guessed_weights": True, "use_min_gen_set_lowerbound": True,
+                                                           "add_min_gen_set_to_given_weights": True}])})
         for cfg in cfgs + (rng.sample(extra, 2) + rng.sample(always, min(2, len(always))) if quick else extra + always):
             r = C.base(u, "MinFlowDecompCycles", cfg.get("mode", "edge"))
             r["wt"] = "int"
